@@ -462,7 +462,7 @@ def one(rep, c, cfg):
                 nsites += 1
                 if m == "load":
                     continue
-                rep.ob("R23.1", f"sleep_state.{m} in {nm} writes a SLEEP_STATE constant {tag}",
+                rep.ob("R23.1", f"sleep_state.{m}({names.get(val, 'other')}) in {nm} writes a SLEEP_STATE constant {tag}",
                        m in ("store", "swap") and val in names,
                        f"{m}({val}) is not a store/swap of POLLING/WOKEN/SLEEPING", h.loc(call.bb))
         rep.floor("R23.1", f"atomic operations on sleep_state {tag}", nsites, 5)
@@ -559,7 +559,8 @@ def one(rep, c, cfg):
             rep.ob("R23.4", f"callback: store(SLEEPING) only when no wake arrived during the poll {tag}", ok, why, f.loc(s))
         rep.floor("R23.4", f"sleep_state.load sites in callback {tag}", len(loads), 1)
         for x in delivers + cancels:
-            kind = "deliver_waitable_event" if x in delivers else CANCEL_FN
+            kind = ("deliver_waitable_event " + ("(in the poll loop)" if f.in_cycle(x) else "(before the poll loop)")) \
+                if x in delivers else CANCEL_FN
             rep.ob("R23.4", f"callback: {kind} runs under a non-SLEEPING state {tag}",
                    f.set_dominates(set(st_other), x) and not any(x in f.reachable(s) for s in st_sleep),
                    "the pending read can be consumed / cancelled while wake_by_ref would still write to the stream",
